@@ -498,6 +498,27 @@ def ElCaps.runnable (c : ElCaps) : Bool := c.run || c.call || c.isFC
 (callable — our elements are never a `Split` — or a Run element with `_can_break_flow`) -/
 def ElCaps.fillIntoable (c : ElCaps) : Bool := c.fillInto || c.call || (c.run && c.canBreakFlow)
 
+/-- `ct.is_fill_compute_seq(seq)` called directly on an argument.  For the explicit sequence
+objects of the harness: `Source(...)` → `False` (first test of the function);
+`FillComputeSeq(FC)` is iterable and contains its fill/compute element; `FillRequestSeq(FR)` and
+`Sequence(SQ)` contain none and have no `compute` themselves. -/
+def Obj.isFillComputeSeq : Obj → Bool
+  | .source => false
+  | .fcSeq => true
+  | .frSeq => false
+  | .seq => false
+  | .el c => c.isFC
+  | .tuple els => els.any ElCaps.isFC
+
+/-- `ct.is_fill_request_seq(seq)` called directly (`FillRequestSeq` has `fill` and `request`) -/
+def Obj.isFillRequestSeq : Obj → Bool
+  | .source => false
+  | .fcSeq => false
+  | .frSeq => true
+  | .seq => false
+  | .el c => c.isFR
+  | .tuple els => els.any ElCaps.isFR
+
 /-- `Sequence(*els)` succeeds -/
 def sequenceOk (els : List ElCaps) : Bool := els.all ElCaps.runnable
 
